@@ -234,3 +234,59 @@ example : gwInvokes (gateway true {} { msgID := [0x31#8, 0x32#8, 0x78#8], pathHd
   decide +kernel
 
 end Rpcx.Props.C19
+
+namespace Rpcx.Props.C19
+open Rpcx Rpcx.Gen Rpcx.Srv Rpcx.Query Rpcx.Gw
+
+/-- the request the JSON-RPC endpoint builds for "path.Method" with JSON arguments and an id is
+    the request a native client frames for (path, Method) with the JSON codec – up to the
+    sequence number, which JSON-RPC does not carry into the rpcx message -/
+theorem jsonrpc_request (path method params : Bytes) (md : List (Bytes × Bytes)) (hkeys : (md.map (·.1)).Nodup)
+    (hp : path ≠ []) (hm : ∀ x ∈ method, x ≠ 0x2E#8) :
+    jsonrpcReq true (path ++ 0x2E#8 :: method) params (encodeValues md) []
+      = some (nativeReq 0#64 C.SerializeType_JSON false false path method md params) := by
+  unfold jsonrpcReq
+  rw [splitMethod_join path method hp hm]
+  have hmd : (if (encodeValues md).isEmpty then [] else firstWins (parseQuery (encodeValues md)).1) = md := by
+    rw [parseQuery_encodeValues, firstWins_nodup md hkeys]
+    split
+    · rename_i he
+      cases md with
+      | nil => rfl
+      | cons e rest =>
+        exfalso
+        have : (encodeValues (e :: rest)).isEmpty = false := by
+          unfold encodeValues
+          cases rest <;> simp [joinAmp, pairOf]
+        rw [this] at he; cases he
+    · rfl
+  simp only [hmd, if_true, List.isEmpty_nil]
+  rfl
+
+/-- **JSON-RPC ≡ native**: same outcome (reply payload or error text) and the same number of handler
+    invocations as the identical request on the native protocol -/
+theorem jsonrpc_equals_native (env : Env) (path method params : Bytes) (md : List (Bytes × Bytes))
+    (hkeys : (md.map (·.1)).Nodup) (hp : path ≠ []) (hm : ∀ x ∈ method, x ≠ 0x2E#8)
+    (ht : env.target ≠ .router) (h1 : env.reachLimit = false) (h2 : env.postReadOk = true) (h3 : env.authErr = none) :
+    jsonrpc true env true (path ++ 0x2E#8 :: method) params (encodeValues md) []
+      = .served ((serveOne env (nativeReq 0#64 C.SerializeType_JSON false false path method md params)).filter (· == .invoke))
+          (nativeOut (serveOne env (nativeReq 0#64 C.SerializeType_JSON false false path method md params))) := by
+  unfold jsonrpc
+  rw [jsonrpc_request path method params md hkeys hp hm]
+  obtain ⟨f1, f2, f3⟩ := nativeReq_flags 0#64 C.SerializeType_JSON path method md params
+  have henv : httpEnv env = env := by unfold httpEnv; rw [if_neg ht]
+  simp only []
+  unfold httpOne serveOne
+  simp only [Bool.not_true, Bool.false_eq_true, if_false, h1, h2, h3, f1, f3, henv]
+  generalize dispatch env (nativeReq 0#64 C.SerializeType_JSON false false path method md params) = acts
+  unfold nativeOut
+  rw [filterMap_write_append_next, filter_invoke_append_next]
+  rfl
+
+/-- a JSON-RPC method name without a usable dot never reaches a handler -/
+theorem jsonrpc_bad_name (acceptOk : Bool) (env : Env) (hasID : Bool) (name params mdata auth : Bytes)
+    (h : splitMethod name = none) : gwInvokes (jsonrpc acceptOk env hasID name params mdata auth) = 0 := by
+  unfold jsonrpc jsonrpcReq
+  rw [h]; rfl
+
+end Rpcx.Props.C19
